@@ -38,7 +38,7 @@ CFG = {
                   "change the terminal shows a well-formed grid. On a clustering terminal additionally: no two neighbouring shown cells join (NoJoinNeighbours; render() writes neighbouring cells back to back — F112d; a CUP between them was evaluated and rejected: it does not help on terminals that cluster against the cell left of the cursor). "
                   "F111c (Wrap put the halves of one cluster — a flag beginning a later Segment — into two cells, which such a terminal shows as one glyph; found by the op-level stream) is fixed in /repo 1f9a9ad. app_history_displays is stated over the plain terminal; app_history_displays_clustering (Props/C01AppCluster) is its form for the clustering terminal, with RunNoJoin (NoJoinNeighbours of the screen at every frame) as the extra hypothesis. Validated by correspondence only: "
                   "that the Lean loops equal the Go loops beyond their pinned statement structure; screens WITH image cells (oracle treats image cells as don't-care; the "
-                  "display theorems assume none). Placement loops of render() are C20's. Spec.Display is a model of a standards-conforming terminal, not a physical one.",
+                  "display theorems assume none; the full statement frame_displays_images_full is written down with the proved image-free part frame_displays_images_partial and two decide-checked instances with image cells). Placement loops of render() are C20's. Spec.Display is a model of a standards-conforming terminal, not a physical one.",
     "assumptions": ["terminal width of a raw-printed grapheme equals Vaxis's characterWidth under the same capability set (C07 width method)",
                     "explicit cell widths given by the application are either 0 (auto) or correct, or any width > 1 when OSC 66 is available"],
     "technique": "Lean 4 proof (invariants over frame histories, refinement of the repaired loop to the round-1 loop, composition with the C11 window model) + extractor "
